@@ -461,7 +461,12 @@ def build_evidence(prop, tier, seed, level, pools, variants, notes, known_seen, 
     probes = {k[6:]: v for k, v in counters.items() if k.startswith("probe.")}
     cfgs = {k[4:]: v for k, v in counters.items() if k.startswith("cfg.")}
     collateral = {k: v for k, v in counters.items() if k.startswith("collateral")}
-    other = {k: v for k, v in counters.items() if not re.match(r"(fault|probe|cfg|collateral)", k)}
+    cells = {}
+    for k, v in counters.items():
+        if k.startswith("cell."):
+            _, wname, opname, outcome = k.split(".", 3)
+            cells.setdefault(wname + "." + opname, {})[outcome] = v
+    other = {k: v for k, v in counters.items() if not re.match(r"(fault|probe|cfg|collateral|cell)", k)}
     if not samples:
         samples = ["(no run completed)"]
     cov = {
@@ -480,6 +485,7 @@ def build_evidence(prop, tier, seed, level, pools, variants, notes, known_seen, 
                               "reported_failure": counters.get("fault.reported_failure", 0), "survived": counters.get("fault.survived", 0),
                               "ctor_reported_failure": counters.get("fault.ctor_reported_failure", 0), "ctor_survived": counters.get("fault.ctor_survived", 0)},
         "probes": probes,
+        "function_outcome_table": cells,
         "configurations": cfgs,
         "distinct_schedules": len(scheds),
         "worlds": worlds,
